@@ -198,7 +198,7 @@ theorem getCommitsAnd_reps (E : Params) (hc : E.cd.Lawful E.q) :
     | cons V Vs =>
       have hV : V < E.q := hb V (List.mem_cons_self ..)
       rw [encPs_cons, List.append_assoc] at h
-      simp only [List.map_cons, getCommitsAnd, RepS.toPred, getCommits, mkVec, Option.getD_some]
+      simp only [List.map_cons, getCommitsAnd, RepS.toPred, getCommits, mkVec, Option.getD_some, placeTermsB_v]
       rw [VCtx.get_enc st (hc.encP_len V) (hc.decP_enc V hV) h]
       simp only
       have := ih Vs (placeTerms rp.ts r) { st with rest := encPs E.cd Vs ++ tail, pend := st.pend ++ E.cd.encP V } tail
@@ -437,7 +437,7 @@ theorem getCommits_scope (E : Params) (hc : E.cd.Lawful E.q) (sc : Scope) (Vs : 
         have h' : st.rest = E.cd.encP V ++ tail := by simpa [encPs] using h
         simp only [Scope.toPred, RepS.toPred, getCommits, mkVec, Option.getD_none]
         rw [VCtx.get_enc st (hc.encP_len V) (hc.decP_enc V hV) h']
-        simp [Scope.vp, Scope.ph, Scope.reps, placeReps, encPs]
+        simp [Scope.vp, Scope.ph, Scope.reps, placeReps, encPs, placeTermsB_v]
   | all rs =>
     have := getCommitsAnd_reps E hc rs Vs Vec.empty st tail hl hb h
     simp only [Scope.toPred, getCommits, mkVec, Option.getD_none, this, Scope.vp, Scope.ph, Scope.reps]
